@@ -136,6 +136,9 @@ func genLOps(rc *RunCtx, c LCfg) []Op {
 		// bursts: operations of distinct producers on distinct topics commute
 		if (o.Kind == "register" || o.Kind == "unregister" || o.Kind == "ping") && r.Chance(1, 4) {
 			o.Burst = true
+			if r.Chance(1, 2) {
+				add(Op{Kind: "bgread", Burst: true, S: r.PickS("/debug", "/nodes", "/topics", "/lookup?topic=t0", "/channels?topic=t0", "/debug")})
+			}
 		}
 		add(o)
 	}
@@ -341,7 +344,13 @@ func (w *lWorld) burstCompatible(burst []Op, op Op) bool {
 	if len(burst) >= 4 {
 		return false
 	}
+	if op.Kind == "bgread" {
+		return true // read-only
+	}
 	for _, b := range burst {
+		if b.Kind == "bgread" {
+			continue
+		}
 		if b.A == op.A {
 			return false
 		}
@@ -366,7 +375,17 @@ func (w *lWorld) runBurst(burst []Op) {
 		p  *lPeer
 	}
 	var ps []pend
+	var bg []chan HTTPResp
 	for _, op := range burst {
+		if op.Kind == "bgread" {
+			// an HTTP read in flight while the producers' commands are processed
+			ch := make(chan HTTPResp, 1)
+			path := op.S
+			go func() { ch <- httpDo(w.rc, "GET", w.http, path, nil, nil, nil, 30*time.Second) }()
+			bg = append(bg, ch)
+			w.rc.Probe("concurrent_reads")
+			continue
+		}
 		p := w.peers[int(uint64(op.A)%uint64(len(w.peers)))]
 		if !p.connected {
 			continue
@@ -377,6 +396,11 @@ func (w *lWorld) runBurst(burst []Op) {
 	synctest.Wait()
 	for _, x := range ps {
 		w.complete(x.p, x.op)
+	}
+	for _, ch := range bg {
+		if r := <-ch; r.Err != nil || (r.Status != 200 && r.Status != 404) {
+			w.violate("C15", "read-failed", "concurrent HTTP read answered %d err=%v", r.Status, r.Err)
+		}
 	}
 	synctest.Wait()
 }
@@ -441,6 +465,9 @@ func (w *lWorld) exec(op Op) {
 	switch op.Kind {
 	case "adv":
 		time.Sleep(ms(op.A))
+		return
+	case "bgread":
+		httpDo(rc, "GET", w.http, op.S, nil, nil, nil, 30*time.Second)
 		return
 	case "http":
 		w.execHTTP(op)
